@@ -12,7 +12,23 @@ func (p *parker) wait()   { <-p.c }
 
 const RaceEnabled = false
 
-func RaceIORelease()                         {}
-func RaceIOAcquire()                         {}
+//go:norace
+func RaceIORelease() {}
+
+//go:norace
+func RaceIOAcquire() {}
+
+//go:norace
+func RaceFDSync(p *uint64) {}
+
+//go:norace
 func RaceWriteRange(p unsafe.Pointer, n int) {}
-func RaceReadRange(p unsafe.Pointer, n int)  {}
+
+//go:norace
+func RaceReadRange(p unsafe.Pointer, n int) {}
+
+//go:norace
+func raceTeardownRelease() {}
+
+//go:norace
+func raceTeardownAcquire() {}
